@@ -269,3 +269,57 @@ func RetVal(r *ssa.Return, i int) ssa.Value {
 	}
 	return v
 }
+
+// MustHold computes, for a fact established by branch conditions, the blocks on whose entry the fact holds on
+// every path: in[b] = AND over predecessors p of (in[p] OR the edge p->b carries a condition accepted by est).
+// Greatest fixpoint; the entry block starts false. Unlike CondsAt (dominator ancestors only) this also covers
+// join points all of whose incoming edges establish the fact (`case A, B:`, fallthrough, `a || b`).
+// kill (optional) names blocks that invalidate the fact for their successors.
+func MustHold(fn *ssa.Function, est func(Cond) bool) map[*ssa.BasicBlock]bool {
+	in := map[*ssa.BasicBlock]bool{}
+	if len(fn.Blocks) == 0 {
+		return in
+	}
+	for _, b := range fn.Blocks {
+		in[b] = true
+	}
+	in[fn.Blocks[0]] = false
+	if fn.Recover != nil {
+		in[fn.Recover] = false
+	}
+	edge := func(p, b *ssa.BasicBlock) bool {
+		if len(p.Instrs) == 0 {
+			return false
+		}
+		ifi, ok := p.Instrs[len(p.Instrs)-1].(*ssa.If)
+		if !ok || p.Succs[0] == p.Succs[1] {
+			return false
+		}
+		for _, c := range expandCond(ifi.Cond, p.Succs[0] == b, 0) {
+			if est(c) {
+				return true
+			}
+		}
+		return false
+	}
+	for changed := true; changed; {
+		changed = false
+		for _, b := range fn.Blocks {
+			if !in[b] || b == fn.Blocks[0] {
+				continue
+			}
+			ok := len(b.Preds) > 0
+			for _, p := range b.Preds {
+				if !(in[p] || edge(p, b)) {
+					ok = false
+					break
+				}
+			}
+			if !ok {
+				in[b] = false
+				changed = true
+			}
+		}
+	}
+	return in
+}
